@@ -1,4 +1,5 @@
 import PV.Model.AllocCheck
+import PV.Proofs.Cfg
 /-!
 Soundness of the allocation validator: if every line passes `okAt` and every executed control transfer satisfies
 `succOk`, the renamed program and the original program run in lock step with equal pc, stack memory, effect trace and
@@ -374,5 +375,52 @@ theorem checkAlloc_trace_eq (sem : Sem V) (env : Env V) (ρ : R → R') (C : Cer
     (run sem env (P.map (mapInstr ρ)) n t).halted = (run sem env P n s).halted :=
   let r := checkAlloc_sound sem env ρ C P hP n s t h hdyn
   ⟨r.trace, r.halted⟩
+
+end PV.AllocCheck
+
+namespace PV.AllocCheck
+open PV.IC10
+set_option linter.unusedSectionVars false
+variable {R V : Type} [DecidableEq R] [Special R]
+variable {R' : Type} [DecidableEq R'] [Special R']
+
+/-- the only dynamic assumption left: a jump through a register lands on one of its declared successors -/
+def IndirectOk (sem : Sem V) (env : Env V) (P : List (Instr R V)) (declared : Nat → List Nat) (s : St R V) : Prop :=
+  ∀ k i, (run sem env P k s).halted = false → P[(run sem env P k s).pc]? = some i →
+    PV.Cfg.succs sem (run sem env P k s).pc i = none → (step sem env P (run sem env P k s)).halted = false →
+    (step sem env P (run sem env P k s)).pc ∈ declared (run sem env P k s).pc
+
+/-- **soundness with the static edge check**: local check + edge check accepted, and jumps through registers land on their
+    declared successors ⇒ the allocated program runs in lock step with the program before allocation, forever -/
+theorem checkAlloc_sound_static (sem : Sem V) (env : Env V) (ρ : R → R') (C : Cert R) (P : List (Instr R V))
+    (declared : Nat → List Nat) (hP : okProg ρ C P = true) (hE : edgesOk sem C P declared = true)
+    (n : Nat) (s : St R V) (t : St R' V) (h : Rel ρ (C.liveIn s.pc) s t) (hind : IndirectOk sem env P declared s) :
+    Rel ρ (C.liveIn (run sem env P n s).pc) (run sem env P n s) (run sem env (P.map (mapInstr ρ)) n t) := by
+  apply checkAlloc_sound sem env ρ C P hP n s t h
+  intro k hk hk'
+  -- the state after k steps
+  generalize hsk : run sem env P k s = sk at hk hk'
+  cases hi : P[sk.pc]? with
+  | none =>
+    -- running off the program halts the chip: contradiction with hk'
+    have : (step sem env P sk).halted = true := by simp [step, hk, hi]
+    rw [this] at hk'; cases hk'
+  | some i =>
+    unfold edgesOk at hE
+    rw [List.all_eq_true] at hE
+    have hm : (i, sk.pc) ∈ P.zipIdx := by
+      rw [List.mem_zipIdx_iff_getElem?]; simpa using hi
+    have he := hE (i, sk.pc) hm
+    cases hs : PV.Cfg.succs sem sk.pc i with
+    | some l =>
+      simp only [hs, List.all_eq_true] at he
+      rcases PV.Cfg.step_pc_mem_succs sem env P sk i l hk hi hs with hh | hmem
+      · rw [hh] at hk'; cases hk'
+      · exact he _ hmem
+    | none =>
+      simp only [hs, List.all_eq_true] at he
+      have := hind k i (by rw [hsk]; exact hk) (by rw [hsk]; exact hi) (by rw [hsk]; exact hs) (by rw [hsk]; exact hk')
+      rw [hsk] at this
+      exact he _ this
 
 end PV.AllocCheck
